@@ -316,6 +316,11 @@ class C15(PropBase):
         for _ in range(rng.choice([0, 0, 1, 3])):
             if nt:
                 st.append("trust %d %d %d" % (rng.below(nt), rng.below(4), rng.range(1, 6)))
+        if c.mods and rng.chance(1, 3):
+            # the VS_FIXEDFILEINFO of a module: right / wrong signature and struct version, extreme version words
+            w32 = lambda: rng.choice([0, 1, 0xffff, 0x10000, 0x00010002, U32, rng.below(1 << 32)])
+            st.append("ver %d %d %d %d %d %d %d" % (rng.below(len(c.mods)), rng.choice([0xfeef04bd, 0xfeef04bd, 0xfeef04bd, 0, 0xfeef04be]),
+                                                  rng.choice([0x10000, 0x10000, 0x10000, 0, 0x10001]), w32(), w32(), w32(), w32()))
         if nt and rng.chance(1, 4):
             # frame 0 of a thread (mostly the requesting one) keeps only some of its general-purpose registers valid
             st.append("valid %d %d" % (rng.below(nt), rng.choice([0, 1, 5, 0x88, 0xff, 0x12, rng.below(256)])))
@@ -709,7 +714,7 @@ class C15(PropBase):
         if " ST " not in " " + ext:
             return []
         toks = ext.split(" ST ", 1)[1].split()
-        ar = {"assert": 1, "cert": 2, "stat": 6, "req": 1, "trust": 3, "lasterr": 2, "limit": 4, "pid": 1, "inl": 5, "nobootargs": 0, "valid": 2}
+        ar = {"assert": 1, "cert": 2, "stat": 6, "req": 1, "trust": 3, "lasterr": 2, "limit": 4, "pid": 1, "inl": 5, "nobootargs": 0, "valid": 2, "ver": 7}
         out, i = [], 1
         while i < len(toks):
             d = toks[i]
